@@ -63,6 +63,53 @@ EDITS = {
         ("hp05", RT + "vm/heap.rs", "            refcount: 1,\n            size,\n            data: vec![0; size],", "            refcount: 0,\n            size,\n            data: vec![0; size],", "verus", "heap"),
         ("hp06", RT + "vm/heap.rs", "        obj.refcount == 0\n    } else {", "        obj.refcount <= 1\n    } else {", "both", "heap"),
     ],
+    "C11": [
+        ("sc01", SCH + "scheduler.rs", "Some(Reverse(Task { when, closure })) if *when <= now => {", "Some(Reverse(Task { when, closure })) if *when < now => {", "verus", "scheduler"),
+        ("sc02", SCH + "scheduler.rs", "self.when.cmp(&other.when)", "self.closure.cmp(&other.closure)", "both", "scheduler"),
+        ("sc03", SCH + "scheduler.rs", "                let _ = self.tasks.pop();\n", "", "verus", "scheduler"),
+        ("sc04", SCH + "scheduler.rs", "            self.tasks.push(Reverse(task));\n", "", "verus", "scheduler"),
+        ("sc05", SCH + "scheduler.rs", "            handle.execute_closure(closure);", "            handle.execute_closure(closure);\n            handle.execute_closure(closure);", "verus", "scheduler"),
+        ("sc06", SCH + "wasm_handle.rs", "            if task.when <= now {", "            if task.when < now {", "verus", "scheduler"),
+        ("sc07", SCH + "wasm_handle.rs", "                ready.push(state.tasks.pop().unwrap().0.closure as i64);", "                ready.push(task.closure as i64);", "verus", "scheduler"),
+        ("sc08", SCH + "wasm_handle.rs", "                if when <= s.current_time {", "                if when < s.current_time {", "verus", "scheduler"),
+        ("sc09", SCH + "wasm_handle.rs", "let when = args[0] as u64;", "let when = args[0].round() as u64;", "verus", "scheduler"),
+        ("sc10", SCH + "wasm_handle.rs", ".push(Reverse(Task::new(Time(when), closure_addr as u64)));", ".push(Reverse(Task::new(Time(when + 1), closure_addr as u64)));", "verus", "scheduler"),
+        ("sc11", SCH + "wasm_handle.rs", "self.state.lock().unwrap().current_time = time;", "self.state.lock().unwrap().current_time = time + 1;", "verus", "scheduler"),
+    ],
+    "C13": [
+        ("pt01", PAR + "tokenizer.rs", "Token::new(TokenKind::Error, span.start, span.end - span.start)", "Token::new(TokenKind::Error, span.start, 1)", "verus", "parser_tokens"),
+        ("pt02", PAR + "tokenizer.rs", "Token::new(kind, span.start, span.end - span.start)", "Token::new(kind, span.end, span.end - span.start)", "verus", "parser_tokens"),
+        ("pt03", PAR + "tokenizer.rs", "tokens.push(Token::new(TokenKind::Eof, source.len(), 0));", "tokens.push(Token::new(TokenKind::Eof, source.len(), 1));", "verus", "parser_tokens"),
+        ("pt04", PAR + "token.rs", "                | TokenKind::MultiLineComment\n", "", "verus", "preparse"),
+        ("pt05", PAR + "token.rs", "        self.start + self.length\n", "        self.start + self.length + 1\n", "verus", "parser_tokens"),
+        ("pp01", PAR + "preparser.rs", "            result.token_indices.push(i);", "            result.token_indices.push(i + 1);", "verus", "preparse"),
+        ("pp02", PAR + "preparser.rs", "            last_token_idx = Some(current_idx);", "            last_token_idx = Some(i);", "verus", "preparse"),
+        ("pp03", PAR + "preparser.rs", "        } else if token.kind != TokenKind::Eof {", "        } else if token.kind != TokenKind::Error {", "verus", "preparse"),
+        ("pp04", PAR + "preparser.rs", "            // Collect trivia\n            pending_trivia.push(i);", "            if token.kind != TokenKind::Whitespace { pending_trivia.push(i); }", "verus", "preparse"),
+        ("cp01", PAR + "cst_parser.rs", "        self.current += 1;\n    }\n\n    /// Expect a specific token kind", "        self.current += 2;\n    }\n\n    /// Expect a specific token kind", "verus", "parser_tokens"),
+        ("cp02", PAR + "cst_parser.rs", "self.builder.add_token(token_idx, token.length);", "self.builder.add_token(token_idx + 1, token.length);", "verus", "parser_tokens"),
+    ],
+    "C17": [
+        ("rn01", "crates/lib/mimium-lang/src/compiler/mirgen/convert_qualified_names.rs", "resolved_path.len() < 2", "resolved_path.len() < 1", "verus", "resolve_names"),
+        ("rn02", "crates/lib/mimium-lang/src/compiler/mirgen/convert_qualified_names.rs", "self.current_module_context.starts_with(target_module)", "target_module.starts_with(&self.current_module_context)", "verus", "resolve_names"),
+        ("rn03", "crates/lib/mimium-lang/src/compiler/mirgen/convert_qualified_names.rs", "        if !is_public && !is_same_module {", "        if !is_public && is_same_module {", "verus", "resolve_names"),
+        ("rn04", "crates/lib/mimium-lang/src/compiler/mirgen/convert_qualified_names.rs", "                    if is_public {\n                        return Some(mangled);\n                    }", "                    return Some(mangled);", "verus", "resolve_names"),
+        ("rn05", "crates/lib/mimium-lang/src/compiler/mirgen/convert_qualified_names.rs", "            && !is_public\n            && !ctx.is_within_module_hierarchy", "            && is_public\n            && !ctx.is_within_module_hierarchy", "verus", "resolve_names"),
+        ("rn06", "crates/lib/mimium-lang/src/compiler/mirgen/convert_qualified_names.rs", "Some(next) if next != current => current = next,", "Some(next) if next != current => current = symbol,", "verus", "resolve_names"),
+        ("rn07", "crates/lib/mimium-lang/src/compiler/mirgen/convert_qualified_names.rs", "    if ctx.is_locally_bound(name) {\n        return Expr::Var(name).into_id(loc);\n    }\n", "", "verus", "resolve_names"),
+        ("rn08", "crates/lib/mimium-lang/src/compiler/mirgen/convert_qualified_names.rs", "        if !is_public && !ctx.is_within_module_hierarchy(&target_path) {", "        if !is_public && ctx.is_within_module_hierarchy(&target_path) {", "verus", "resolve_names"),
+        ("rn09", "crates/lib/mimium-lang/src/ast/program.rs", "        if exists(&relative_mangled) {\n            return (relative_mangled, relative_path);", "        if exists(&relative_mangled) {\n            return (relative_mangled, path_segments.to_vec());", "verus", "resolve_names"),
+    ],
+    "C20": [
+        ("ff01", RT + "ffi_serde.rs", "            Value::Store(_) => {\n                Err(\"Mutable stores cannot be serialized across FFI boundaries\".to_string())\n            }", "            Value::Store(_) => Ok(FfiValue::Unit),", "verus", "ffi_serde"),
+        ("ff02", RT + "ffi_serde.rs", "FfiValue::Tuple(t) => Value::Tuple(", "FfiValue::Tuple(t) => Value::Array(", "verus", "ffi_serde"),
+        ("ff03", RT + "ffi_serde.rs", "Ok(FfiValue::TaggedUnion(*tag, Box::new(val.to_ffi_value()?)))", "Ok(FfiValue::TaggedUnion(*tag + 1, Box::new(val.to_ffi_value()?)))", "verus", "ffi_serde"),
+        ("ff04", RT + "ffi_serde.rs", "(k.to_symbol(), v.to_value())", "(k.to_symbol(), Value::Unit)", "verus", "ffi_serde"),
+        ("ff05", RT + "ffi_serde.rs", "            Value::Number(n) => Ok(FfiValue::Number(*n)),", "            Value::Number(n) => Ok(FfiValue::Number(*n + 0.0)),", "verus", "ffi_serde"),
+        ("ff06", RT + "ffi_serde.rs", "            FfiValue::String(s) => Value::String(s.to_symbol()),", "            FfiValue::String(s) => Value::String(\"\".to_string().to_symbol()),", "verus", "ffi_serde"),
+        ("ff07", RT + "ffi_serde.rs", "            Value::ErrorV(_) => {\n                Err(\"Error values cannot be serialized across FFI boundaries\".to_string())\n            }", "            Value::ErrorV(_) => Ok(FfiValue::ErrorV),", "verus", "ffi_serde"),
+        ("ff08", RT + "ffi_serde.rs", "    let ffi_args = ffi_args?;\n    bincode::serialize(&ffi_args)", "    let ffi_args = ffi_args.unwrap_or_default();\n    bincode::serialize(&ffi_args)", "verus", "ffi_serde"),
+    ],
 }
 
 
@@ -102,7 +149,7 @@ def run(prop, cfg, here, out, repo, only=None):
     paths = _files_needed(here, cfg)
     base = os.path.join(out, "selftest")
     os.makedirs(base, exist_ok=True)
-    caught, missed, not_applied, details = [], [], [], []
+    caught, missed, not_applied, undecided, details = [], [], [], [], []
 
     def one(e):
         eid, path, old, new, kind, unit = e[:6]
@@ -114,6 +161,7 @@ def run(prop, cfg, here, out, repo, only=None):
                 return eid, "not-applied", "anchor text not found"
             open(fp, "w").write(txt.replace(old, new, 1))
             red = []
+            und = ""
             if kind in ("verus", "both"):
                 od = os.path.join(sc, "_out")
                 os.makedirs(od, exist_ok=True)
@@ -130,6 +178,8 @@ def run(prop, cfg, here, out, repo, only=None):
                     for r in rs:
                         if r["status"] == "violation":
                             red.append(r["harness"])
+            if not red and und:
+                return eid, "undecided", und[:200]
             return eid, ("caught" if red else "missed"), sorted(set(red))[:6]
         finally:
             shutil.rmtree(sc, ignore_errors=True)
@@ -137,8 +187,8 @@ def run(prop, cfg, here, out, repo, only=None):
     with cf.ThreadPoolExecutor(max_workers=6) as ex:
         for eid, st, info in ex.map(one, edits):
             details.append({"edit": eid, "result": st, "obligations": info})
-            (caught if st == "caught" else missed if st == "missed" else not_applied).append(eid)
+            (caught if st == "caught" else missed if st == "missed" else undecided if st == "undecided" else not_applied).append(eid)
     shutil.rmtree(base, ignore_errors=True)
-    return {"applied": len(caught) + len(missed), "caught": len(caught), "missed": missed,
-            "not_applied": not_applied, "details": details,
+    return {"applied": len(caught) + len(missed) + len(undecided), "caught": len(caught), "missed": missed,
+            "undecided": undecided, "not_applied": not_applied, "details": details,
             "note": "edits are applied to a scratch copy of the files under contract, never to /repo"}
